@@ -193,7 +193,7 @@ def run(ctx, deep, model_ok):
                 # which side is wrong? the independent recogniser decides
                 tag = {v: k_ for k_, v in FL.TAGS.items()}.get(dt)
                 case = {'kind': 'field', 'datatype': dt, 'string': w, 'impl_accepts': b_impl == '1', 'model_accepts': b_model == '1'}
-                ctx.violation('failing-input', 'the safe decoder of %s %s %r while the model (proved equal to the grammar for the '
+                ctx.disagree('the safe decoder of %s %s %r while the model (proved equal to the grammar for the '
                               'regular datatypes) %s it' % (dt, 'accepts' if b_impl == '1' else 'rejects', w,
                                                             'accepts' if b_model == '1' else 'rejects'), case, python=py_of(case))
             if not diff:
@@ -232,7 +232,7 @@ def run(ctx, deep, model_ok):
             ctx.broken.append(('correspondence-broken', 'lines: ' + e))
         for i in failing[:3]:
             vals, _ = LL.show_model('C04', [lterms[i]])
-            ctx.violation('failing-input', 'Model/Line.v and gfapy.Line() disagree on this line (model: %s)' % (vals[0][:80] if vals else '?'),
+            ctx.disagree('Model/Line.v and gfapy.Line() disagree on this line (model: %s)' % (vals[0][:80] if vals else '?'),
                           lmeta[i], python=py_of(lmeta[i]))
         ctx.notes['lines_compared_in_coq'] = len(lterms)
     # ---- 3. documents: undefined references, E position order, rGFA
